@@ -111,6 +111,36 @@ def random_transfer(seed, idx, fam="xfer", lossy=True, sizes=(1, 200000), allow_
                     info={"lossy": lossy, "link": link, "rx": rx, "tx": [tx_init, tx_max], "nagle": nagle,
                           "class": "fair-lossy" if lossy else "loss-free"})
 
+def bursty_transfer(seed, idx, fam="xfer"):
+    """A conversation of small writes separated by pauses; after each burst the network loses the tail of the
+    exchange a bounded number of times: the last ACK(s), or the last data packet(s).  Fair-lossy (each identity is
+    dropped at most twice)."""
+    rng = random.Random(seed * 1000003 + idx * 31 + 9)
+    link = rng.choice([576, 1500, 300])
+    lat = rng.choice([1000, 10000, 50000])
+    nagle = rng.random() < 0.7
+    gen = isn_pair(rng)
+    opts = dict(link_mtu=link, nagle=nagle)
+    ex = []
+    for b in range(rng.choice([2, 3, 5])):
+        w, r = ("a", "B") if rng.random() < 0.7 else ("b", "A")
+        n = rng.choice([1, 5, 100, LINKS[link], LINKS[link] + 1, 3 * LINKS[link], 5000])
+        ex.append({"op": "write", "ep": w, "n": n, "chunk": rng.choice([n, 5, 65536])})
+        k = rng.random()
+        if k < 0.45:     # the acknowledgement(s) of the tail are lost
+            ex.append(rule(**{"from": r, "type": "state", "act": "drop", "times": rng.choice([1, 1, 2])}))
+        elif k < 0.7:    # the next data packet (a retransmission or the rest of the burst) is lost
+            ex.append(rule(**{"from": w.upper(), "type": "data", "act": "drop", "times": rng.choice([1, 2])}))
+        if rng.random() < 0.5:   # a second small write right behind (held by Nagle / congestion state)
+            ex.append({"op": "write", "ep": w, "n": rng.choice([1, 5, 200]), "chunk": 65536})
+        ex.append(sleep(rng.choice([lat // 2, 3 * lat, 400000, 2 * SEC])))
+    # the initiator speaks first (an accepted connection is only established by the initiator's first packet, C17)
+    ex = [sleep(3 * lat)] + ex
+    return transfer(f"{fam}/{idx}", seed * 7919 + idx, n_ab=rng.choice([1, 100]), n_ba=0, chunk_r=rng.choice([1, 65536]),
+                    opts_a=opts, opts_b=opts, net={"latency_us": lat}, rand_a=[gen(), gen()], rand_b=[gen(), gen()],
+                    extra_steps=ex,
+                    info={"lossy": True, "link": link, "nagle": nagle, "class": "fair-lossy", "variant": "bursty"})
+
 # ---------------------------------------------------------------------------------------------
 # D-peer: one real endpoint (socket A) against the scripted raw peer P
 P_ADDR = "127.0.0.1:9"
@@ -555,6 +585,44 @@ def backlog_script(seed, idx, fam="backlog"):
     st.append(sleep(14 * SEC))
     return script(f"{fam}/{idx}", seed * 47 + idx, socks, st, net={"latency_us": 1000},
                   info={"family": fam, "backlog": backlog, "nsyn": nsyn}, mute=["poll"])
+
+def accept_abandon_script(seed, idx, fam="backlog"):
+    """Retained SYNs wait because the connection limit is reached; some of the waiting accept calls are given up;
+    when room appears the oldest retained SYN must go to the oldest accept call that is still wanted."""
+    rng = random.Random(seed * 1000003 + idx * 29 + 5)
+    limit = rng.choice([1, 1, 2])
+    socks = [sock("A", A_ADDR, rand=[500], link_mtu=576, limit=limit, max_retx=2, inactivity_ms=3000), sock("P", P_ADDR, raw=True)]
+    st = []
+    for i in range(limit):
+        st += [{"op": "accept", "sock": "A", "ep": f"x{i}"}, peer("syn", cid=900 + 2 * i, seq=50 + i, to="A"),
+               {"op": "wait", "what": "accept", "timeout_us": 1 * SEC}]
+    nsyn = rng.choice([2, 3, 5])
+    for i in range(nsyn):
+        st.append(peer("syn", cid=1000 + 2 * i, seq=100 + i, to="A"))
+    st.append(sleep(5000))
+    na = rng.choice([3, 4, 6])
+    dead = set(rng.sample(range(na), rng.choice([1, 1, 2])))
+    if rng.random() < 0.7:
+        dead.add(0)
+    for i in range(na):
+        st.append({"op": "accept", "sock": "A", "ep": f"s{i}"})
+    for i in sorted(dead):
+        st.append({"op": "abandon", "ep": f"s{i}"})
+    # room appears: the first connections end (the peer is silent: FIN retransmissions run out)
+    for i in range(limit):
+        st += [{"op": "drop", "ep": f"x{i}"}, sleep(rng.choice([0, 4 * SEC]))]
+    st += [sleep(8 * SEC)]
+    for rnd in range(3):
+        for i in range(na):
+            if i not in dead:
+                st.append({"op": "drop", "ep": f"s{i}"})
+        st.append(sleep(8 * SEC))
+    for i in range(na):
+        st.append({"op": "abandon", "ep": f"s{i}"})
+    st.append(sleep(14 * SEC))
+    return script(f"{fam}/{idx}", seed * 53 + idx, socks, st, net={"latency_us": 1000},
+                  info={"family": fam, "variant": "abandon", "backlog": backlog_from_source(), "limit": limit, "nsyn": nsyn,
+                        "dead": sorted(dead)}, mute=["poll"])
 
 # ------------------------------------------------------------------ hostile family (C10)
 def hostile_script(seed, idx, fam="hostile"):
